@@ -3,6 +3,13 @@ use crate::tags::SfTag;
 use saphyr_parser::ScalarStyle;
 use std::str::FromStr;
 
+/// Strip the blanks that may surround a scalar's text: YAML white space and line breaks only.
+/// (`str::trim` would also strip Unicode white space such as U+00A0, which is content: the
+/// plain scalar `12\u{a0}` is not the integer 12.)
+pub(crate) fn trim_blanks(s: &str) -> &str {
+    s.trim_matches([' ', '\t', '\n', '\r'])
+}
+
 /// Parse a YAML 1.1 boolean from a &str (handles the "Norway problem").
 ///
 /// Accepted TRUE literals (case-insensitive): "y", "yes", "true", "on"
@@ -12,7 +19,7 @@ use std::str::FromStr;
 /// - Ok(true/false) on success
 /// - Err(...) if the input is not a YAML 1.1 boolean literal
 pub(crate) fn parse_yaml11_bool(s: &str) -> Result<bool, String> {
-    let t = s.trim();
+    let t = trim_blanks(s);
     if t.eq_ignore_ascii_case("true")
         || t.eq_ignore_ascii_case("yes")
         || t.eq_ignore_ascii_case("y")
@@ -135,7 +142,7 @@ where
 {
     let invalid = || Error::InvalidScalar { ty, location };
 
-    let t = s.trim();
+    let t = trim_blanks(s);
     let (neg, rest) = match t.strip_prefix('+') {
         Some(r) => (false, r),
         None => match t.strip_prefix('-') {
@@ -171,7 +178,7 @@ where
 {
     let invalid = || Error::InvalidScalar { ty, location };
 
-    let t = s.trim();
+    let t = trim_blanks(s);
     if t.starts_with('-') {
         return Err(invalid());
     }
@@ -222,7 +229,7 @@ where
     if angle_conversions {
         return crate::robotics::parse_yaml12_float_angle_converting(s, location, tag);
     }
-    let t = s.trim();
+    let t = trim_blanks(s);
     let lower = t.to_ascii_lowercase();
     match lower.as_str() {
         ".nan" | "+.nan" | "-.nan" => Ok(T::nan()),
@@ -246,7 +253,7 @@ where
     T: FromStr,
     T: num_traits::Float,
 {
-    let t = s.trim();
+    let t = trim_blanks(s);
     let lower = t.to_ascii_lowercase();
     match lower.as_str() {
         ".nan" | "+.nan" | "-.nan" => Ok(T::nan()),
@@ -311,7 +318,7 @@ pub(crate) fn scalar_is_nullish_for_option(value: &str, style: &ScalarStyle) -> 
 /// Explicit radices (`0x`, `0o`, `0b`) are excluded.
 /// A `true` result means this token should be avoided as an integer.
 pub(crate) fn leading_zero_decimal(t: &str) -> bool {
-    let s = t.trim();
+    let s = trim_blanks(t);
 
     // Handle optional sign
     let digits = s.strip_prefix(['+', '-']).unwrap_or(s);
